@@ -53,6 +53,7 @@ type tcase struct {
 	Hex    string   `json:"body"`           // body bytes, hex
 	Note   string   `json:"note,omitempty"` // generator label
 	Tight  bool     `json:"tight,omitempty"` // body built from chosen codes: the tighter time allowance applies
+	Own    bool     `json:"own,omitempty"`   // body built to cost time: runs in a process of its own, under the general allowance
 	Live   bool     `json:"live,omitempty"`  // sample the live heap during the decode
 	MaxOut int64    `json:"max_out,omitempty"` // the image the body declares has this many bytes: no more may be decoded
 	body   []byte
@@ -333,9 +334,18 @@ func allowedNS(in, out int64) int64 {
 	return (5*time.Second).Nanoseconds() + 50000*(in+out)
 }
 
-// allowFor: the allowance of a case.  Bodies the harness builds from chosen CCITT codes are
-// known to decode in well under 0.05 s per megabyte on the unchanged tree; for them the
-// allowance is 0.75 s + 5 us per input or output byte.
+// allowFor: the allowance of a case.  Bodies the harness builds from chosen CCITT codes (and
+// JBIG2 region storms) are known to decode in well under 0.1 s on the unchanged tree; for
+// them the allowance is 0.75 s + 5 us per input or output byte.
+//
+// Progressive JPEG scan scripts are NOT among them (c.Own, general allowance): the decoder's
+// own bound is maxProgPasses = 64 walks over the coefficient blocks it was allowed to
+// allocate, and StreamBudget(rawLen)/bytesPerProgBlock = 32768 + 4*rawLen blocks may be
+// allocated: up to 2.1 M + 256*rawLen block visits of about 0.13 us each, that is 0.3 s +
+// 33 us per input byte - proportional to the input, but with a constant above the 5 us per
+// byte of the tight allowance.  The scripts the harness builds need 0.3 s to 1.1 s on the
+// unchanged tree (measured); under the tight allowance the slowest of them used 80% of it,
+// and a slower machine raised a false alarm.  The general allowance leaves a factor of ten.
 func allowFor(c *tcase) func(in, out int64) int64 {
 	if c.Tight {
 		return func(in, out int64) int64 { return (750 * time.Millisecond).Nanoseconds() + 5000*(in+out) }
